@@ -40,7 +40,8 @@ class ContractSet:
         self.classes = {}
         for name, c in getattr(mod, "CLASSES", {}).items():
             self.classes[name] = {"file": c.get("file"),
-                                  "fields": {f: parse_kind(k) for f, k in c.get("fields", {}).items()}}
+                                  "fields": {f: parse_kind(k) for f, k in c.get("fields", {}).items()},
+                                  "funcs": dict(c.get("funcs", {}))}
         if getattr(mod, "USES_NX", False):
             from .lib_nx import GRAPH_FIELDS
             for g in ("Graph", "DiGraph"):
